@@ -14,7 +14,7 @@ from bfsa.heap import Unsupported
 from bfsa.load import AnalysisError, NotConst
 from bfsa.symexec import Exec
 from bfsa.guard import unsnap
-from bfsa.terms import C, Term, cval, is_const, show
+from bfsa.terms import C, Term, cval, is_const, mk, show
 
 LEVEL = "proof"
 FN = "bec2format.bec2file.crc8404B"
@@ -149,6 +149,15 @@ def run(prog, chk, tier):
             return g.var(0, 16)
         if elem is not None and t is elem:
             return g.var(16, 8)
+        if t.op == "sub" and is_const(t.args[1]) and cval(t.args[1]) in (0, 1):
+            # divmod(x, 2**k)[0] = x >> k, divmod(x, 2**k)[1] = x & (2**k - 1)   (floor semantics: true for every Python int)
+            from bfsa.layout import builtin_call as _bc
+
+            bc = _bc(unsnap(t.args[0]))
+            if bc and bc[0] == "divmod" and len(bc[1]) == 2 and is_const(bc[1][1]) and isinstance(cval(bc[1][1]), int) and cval(bc[1][1]) > 0 and cval(bc[1][1]) & (cval(bc[1][1]) - 1) == 0:
+                k = cval(bc[1][1]).bit_length() - 1
+                eq = mk("bin", "RShift", bc[1][0], C(k)) if cval(t.args[1]) == 0 else mk("bin", "BitAnd", bc[1][0], C((1 << k) - 1))
+                return g.eval(eq, leaf)
         if t.op == "sub" and unsnap(t.args[0]).op in ("static", "global"):
             vals, name = table_of(unsnap(t.args[0]))
             if vals is None:
